@@ -80,7 +80,7 @@ func argDomain(t reflect.Type, variadic bool, method string, wild bool) []argVal
 		}
 	case t.Kind() == reflect.String && wild:
 		// C02: nonsensical text too
-		return []argVal{val(`"a"`, "a"), val(`""`, ""), val(`"+"`, "+"), val(`"{"`, "{"), val(`"\n"`, "\n"), val(`"//x"`, "//x"), val(`"0X1F"`, "0X1F"), val(`"x/y"`, "x/y"), val(`")"`, ")"), val(`"*/"`, "*/")}
+		return []argVal{val(`"a"`, "a"), val(`""`, ""), val(`"+"`, "+"), val(`"{"`, "{"), val(`"\n"`, "\n"), val(`"//x"`, "//x"), val(`"0X1F"`, "0X1F"), val(`"x/y"`, "x/y"), val(`")"`, ")"), val(`"*/"`, "*/"), val(`"//line a.go:2\n"`, "//line a.go:2\n"), val(`"x/3"`, "x/3")}
 	case t.Kind() == reflect.String:
 		switch method {
 		case "Op":
@@ -329,6 +329,32 @@ func c14One(c c14Construct, combo []int) (problems []string, evals int) {
 				ret, _ = rv.Interface().(*jen.Statement)
 			}
 		})
+		// two consecutive calls of the group form append two distinct statements
+		if pg == nil {
+			var r1, r2 *jen.Statement
+			var n0, n2 int
+			twice := jen.CustomFunc(c14GroupOpts, func(g *jen.Group) {
+				n0 = reflect.ValueOf(g).Elem().FieldByName("items").Len()
+				a, _ := call(reflect.ValueOf(g).MethodByName(gm.Name), c.args(combo, new(int)), c.isVar)
+				b, _ := call(reflect.ValueOf(g).MethodByName(gm.Name), c.args(combo, new(int)), c.isVar)
+				r1, _ = a.Interface().(*jen.Statement)
+				r2, _ = b.Interface().(*jen.Statement)
+				n2 = reflect.ValueOf(g).Elem().FieldByName("items").Len()
+			})
+			if n2 != n0+2 || r1 == r2 {
+				bad("calling the *Group method twice appended %d items (want 2) / returned the same statement twice: %v", n2-n0, r1 == r2)
+			} else if ok {
+				a, _ := call(reflect.ValueOf(fn), c.args(combo, new(int)), c.isVar)
+				b, _ := call(reflect.ValueOf(fn), c.args(combo, new(int)), c.isVar)
+				if sa, ok1 := a.Interface().(*jen.Statement); ok1 {
+					if sb, ok2 := b.Interface().(*jen.Statement); ok2 {
+						if got, want := jh.Raw(twice), jh.Raw(jen.Custom(c14GroupOpts, sa, sb)); got.Key() != want.Key() {
+							bad("the *Group method called twice renders %q, Custom(%s(...), %s(...)) renders %q", got, c.name, c.name, want)
+						}
+					}
+				}
+			}
+		}
 		evals++
 		if pg != nil {
 			bad("group form panics: %v", pg)
@@ -501,6 +527,71 @@ func c14SharedSlices(r *ev.Recorder) {
 	}
 }
 
+// c14SpareCapacity: the argument slice has spare capacity, the result of each form is extended by
+// a chained call, and the caller goes on appending to its slice: nothing may leak either way.
+func c14SpareCapacity(r *ev.Recorder) {
+	for i := 0; i < stmtType.NumMethod(); i++ {
+		m := stmtType.Method(i)
+		if !m.Type.IsVariadic() || m.Type.NumIn() != 2 || m.Type.In(1).Elem() != codeType {
+			continue
+		}
+		forms := []string{"function", "method", "group"}
+		for fi, form := range forms {
+			mk := func(shared bool) []string {
+				args := append(make([]jen.Code, 0, 8), jen.Id("a"), jen.Id("b"))
+				build := func(tail string) *jen.Statement {
+					a := args
+					if !shared {
+						a = append([]jen.Code(nil), args...)
+					}
+					var s *jen.Statement
+					switch fi {
+					case 0:
+						fn, ok := apiFuncs[m.Name]
+						if !ok {
+							return nil
+						}
+						rv, _ := call(reflect.ValueOf(fn), []reflect.Value{reflect.ValueOf(a)}, true)
+						s, _ = rv.Interface().(*jen.Statement)
+					case 1:
+						s = &jen.Statement{}
+						call(reflect.ValueOf(s).MethodByName(m.Name), []reflect.Value{reflect.ValueOf(a)}, true)
+					default:
+						jen.CustomFunc(c14GroupOpts, func(g *jen.Group) {
+							rv, _ := call(reflect.ValueOf(g).MethodByName(m.Name), []reflect.Value{reflect.ValueOf(a)}, true)
+							s, _ = rv.Interface().(*jen.Statement)
+						})
+					}
+					if s != nil {
+						s.Id(tail)
+					}
+					return s
+				}
+				s1 := build("x")
+				s2 := build("w")
+				args = append(args, jen.Id("z"))
+				s3 := build("y")
+				var out []string
+				for _, s := range []*jen.Statement{s1, s2, s3} {
+					if s == nil {
+						out = append(out, "<nil>")
+					} else {
+						out = append(out, jh.Raw(s).Key())
+					}
+				}
+				return out
+			}
+			got, want := mk(true), mk(false)
+			r.Eval(2)
+			desc := fmt.Sprintf("%s %s form built three times from one argument slice with spare capacity, each result extended by .Id(..)", m.Name, form)
+			r.Distinct(desc)
+			if strings.Join(got, "|") != strings.Join(want, "|") {
+				r.Violate(ev.Violation{Signature: "c14:spare-capacity:" + m.Name, What: fmt.Sprintf("%s: %q, with private copies of the slice %q", desc, got, want), Case: ev.JSON(c14Case{Kind: "sparecap", Name: m.Name, Desc: desc})})
+			}
+		}
+	}
+}
+
 // c14Hoisting: a ...Func construct called as a Group method whose callback also emits into the
 // enclosing group must render like g.Add(XFunc(f)) - the callback runs before the new statement
 // is appended.
@@ -580,6 +671,7 @@ func runC14(r *ev.Recorder) {
 	}
 	c14FuncVariants(r)
 	c14SharedSlices(r)
+	c14SpareCapacity(r)
 	c14Hoisting(r)
 	// DictFunc
 	n := 0
